@@ -50,7 +50,17 @@ CHECKS = {
         "note": "The induction itself is the argument in DESIGN.md; the checker discharges its premises. 2^32 counter wrap is assumed away.",
         "technique": "whole-module write census + dominance/must-pass rules + interval abstract interpretation of the clamp",
     },
+    "C07": {
+        "text": "Sound dependency (taint-label) analysis of the whole linked library, on the source-shaped IR and on the project's own -O3 IR: sources are the pointees of every parameter the "
+                "API documents as secret (keys, plaintext, passwords, hash input, hash/HMAC/HKDF/PRNG state fields by DWARF offset, entropy written by the callback / OS); sinks are every branch, "
+                "switch and select condition, every load/store/mem-intrinsic address and length, division operands, variable shift amounts, indirect-call targets and arguments of foreign calls. "
+                "Memory is byte-granular per object with weak updates; calls are joined context-insensitively (over-approximation). A sink whose label set contains a secret label is reported with "
+                "the def-use chain back to the source parameter. Every external function must be classified in the secret/public table or the check is BROKEN.",
+        "note": "IR-level: assumes the x86 backend does not turn data operations into branches and that instruction timing is data-independent; gcc not analysed; pointer parameters assumed "
+                "non-overlapping (except c == m); a variable index is assumed to stay inside its array field (C06). Assembly backends are covered by C05's rules, not here.",
+        "technique": "interprocedural taint/dependency dataflow over LLVM IR (N0 and -O3), byte-granular field-sensitive memory",
+    },
 }
 
 _NB = "not built yet in this session (design exists in DESIGN.md; claimed only once its check fires on broken variants and is silent on the unchanged tree)"
-NOT_APPLICABLE = {p: _NB for p in ["C01", "C02", "C03", "C04", "C05", "C06", "C07", "C08", "C09", "C10", "C11", "C12", "C13", "C14", "C15", ]}
+NOT_APPLICABLE = {p: _NB for p in ["C01", "C02", "C03", "C04", "C05", "C06", "C08", "C09", "C10", "C11", "C12", "C13", "C14", "C15", ]}
